@@ -15,6 +15,8 @@ MCInit ==
   /\ payload \in {0, 2}
   /\ (payload > 0 => (reqs # <<>> /\ reqs[Len(reqs)].k = "upgrade"))
   /\ pipelined \in BOOLEAN
+  /\ abandon \in BOOLEAN
+  /\ (abandon => (payload = 0 /\ reqs # <<>>))
   /\ upEnd \in {"client", "service"}
   /\ (upEnd = "service" => (mode = "resolver" /\ payload > 0))
   /\ BInit
@@ -24,6 +26,6 @@ MCNext == BNext \/ Term
 MCSpec == MCInit /\ [][MCNext]_bvars
 
 EmitCase == (Emit /\ Done) =>
-  PrintT(<<"REPLAY", ToJson([mode |-> mode, reqs |-> reqs, payload |-> payload, pipelined |-> pipelined, upEnd |-> upEnd, bye |-> bye, out |-> out,
+  PrintT(<<"REPLAY", ToJson([mode |-> mode, reqs |-> reqs, payload |-> payload, pipelined |-> pipelined, abandon |-> abandon, upEnd |-> upEnd, bye |-> bye, out |-> out,
                              got |-> [a |-> got["A"], b |-> got["B"], r |-> got["R"]], rawToSvc |-> rawToSvc, exit |-> exit])>>)
 =============================================================================
